@@ -42,50 +42,147 @@ func reallocatedBeforeOverrideMerge(c *Ctx) map[string]bool {
 	if second == nil {
 		return out
 	}
-	freshInfo := func(root ssa.Value) bool {
-		_, isAlloc := resolveUp(c, pa, root).(*ssa.Alloc)
-		return isAlloc
+	host := second.Parent()
+	// resolvePath: the field path of an address below the fresh Info, through
+	// helper parameters (single call site) - "" when it is not rooted there
+	var resolvePath func(v ssa.Value, d int) (string, bool)
+	resolvePath = func(v ssa.Value, d int) (string, bool) {
+		if d > 4 {
+			return "", false
+		}
+		p, root := addrPath(v)
+		if root == nil {
+			p, root = "", v // not a field address: the value itself
+		}
+		switch r := root.(type) {
+		case *ssa.Alloc:
+			return p, isPtrToNamed(r.Type(), modPath, "Info")
+		case *ssa.Parameter:
+			fn := r.Parent()
+			idx := -1
+			for i, q := range fn.Params {
+				if q == r {
+					idx = i
+				}
+			}
+			sites := pa.callSites(fn)
+			if len(sites) != 1 || idx < 0 || idx >= len(sites[0].Common().Args) {
+				return "", false
+			}
+			pre, ok := resolvePath(sites[0].Common().Args[idx], d+1)
+			if !ok {
+				return "", false
+			}
+			if p == "" {
+				return pre, true
+			}
+			if pre == "" {
+				return p, true
+			}
+			return pre + "." + p, true
+		}
+		// a local holding the fresh Info (named result, phi of one value)
+		if root != nil {
+			if al, ok := resolveUp(c, pa, root).(*ssa.Alloc); ok && isPtrToNamed(al.Type(), modPath, "Info") {
+				return p, true
+			}
+		}
+		return "", false
 	}
-	forEachInstr(second.Parent(), func(in ssa.Instruction) {
-		st, ok := in.(*ssa.Store)
-		if !ok {
-			return
-		}
-		// direct: info.X.KeyID = <fresh>
-		if p, root := addrPath(st.Addr); root != nil && strings.HasPrefix(p, "Overridables.") {
-			if instrDominates(st, second) && freshInfo(root) && freshPointer(c, st.Val) {
-				out[strings.TrimPrefix(p, "Overridables.")] = true
+	// beforeMerge: the instruction (or the call chain that leads to it from
+	// the merge's function) comes before the override merge on every path
+	beforeMerge := func(in ssa.Instruction, done *ssa.BasicBlock) bool {
+		at := in
+		for hop := 0; hop < 3 && at.Parent() != host; hop++ {
+			sites := pa.callSites(at.Parent())
+			if len(sites) != 1 {
+				return false
 			}
-			return
+			at, done = sites[0], nil
 		}
-		// table-driven: for _, p := range []**string{&info.A, &info.B} { *p = &copy }
-		ld, ok := st.Addr.(*ssa.UnOp)
-		if !ok || ld.Op != token.MUL {
-			return
+		if at.Parent() != host {
+			return false
 		}
-		ia, ok := ld.X.(*ssa.IndexAddr)
-		if !ok {
-			return
+		if done != nil {
+			return done == second.Block() || done.Dominates(second.Block())
 		}
-		arr, done := fullRangeOver(ia, ld)
-		if arr == nil || !(done == second.Block() || done.Dominates(second.Block())) || !freshPointer(c, st.Val) {
-			return
+		return instrDominates(at, second)
+	}
+	record := func(full string) {
+		if strings.HasPrefix(full, "Overridables.") {
+			out[strings.TrimPrefix(full, "Overridables.")] = true
 		}
-		// the store may sit behind a nil test of the pointer only
-		for _, ref := range *arr.Referrers() {
-			slot, ok := ref.(*ssa.IndexAddr)
-			if !ok || slot == ia {
-				continue
-			}
-			for _, r2 := range *slot.Referrers() {
-				if es, ok := r2.(*ssa.Store); ok && es.Addr == ssa.Value(slot) {
-					if p, root := addrPath(es.Val); root != nil && strings.HasPrefix(p, "Overridables.") && freshInfo(root) {
-						out[strings.TrimPrefix(p, "Overridables.")] = true
+	}
+	var scan []*ssa.Function
+	seen := map[*ssa.Function]bool{}
+	for _, f := range fam {
+		scan = append(scan, f)
+		seen[f] = true
+	}
+	for i := 0; i < len(scan) && i < 8; i++ {
+		forEachInstr(scan[i], func(in ssa.Instruction) {
+			if call, ok := in.(*ssa.Call); ok {
+				if sc := call.Call.StaticCallee(); sc != nil && sc.Blocks != nil && c.isModuleFunc(sc) && !seen[sc] {
+					for _, a := range call.Call.Args {
+						if isPtrToNamed(a.Type(), modPath, "Overridables") || isPtrToNamed(a.Type(), modPath, "Info") {
+							seen[sc] = true
+							scan = append(scan, sc)
+						}
 					}
 				}
 			}
-		}
-	})
+		})
+	}
+	for _, fn := range scan {
+		forEachInstr(fn, func(in ssa.Instruction) {
+			st, ok := in.(*ssa.Store)
+			if !ok || !freshPointer(c, st.Val) {
+				return
+			}
+			// direct: x.A.B.KeyID = <fresh>
+			if full, ok := resolvePath(st.Addr, 0); ok && full != "" {
+				if beforeMerge(st, nil) {
+					record(full)
+				}
+				return
+			}
+			// through the element of a table of addresses:
+			//   for _, p := range []*T{&x.A, &x.B} { p.KeyID = <fresh> }   or   { *p = <fresh> }
+			p, root := addrPath(st.Addr)
+			if root == nil {
+				root = st.Addr
+			}
+			ld, ok := root.(*ssa.UnOp)
+			if !ok || ld.Op != token.MUL {
+				return
+			}
+			ia, ok := ld.X.(*ssa.IndexAddr)
+			if !ok {
+				return
+			}
+			arr, done := fullRangeOver(ia, ld)
+			if arr == nil || !beforeMerge(st, done) {
+				return
+			}
+			for _, ref := range *arr.Referrers() {
+				slot, ok := ref.(*ssa.IndexAddr)
+				if !ok || slot == ia {
+					continue
+				}
+				for _, r2 := range *slot.Referrers() {
+					if es, ok := r2.(*ssa.Store); ok && es.Addr == ssa.Value(slot) {
+						if rp, ok := resolvePath(es.Val, 0); ok {
+							full := rp
+							if p != "" {
+								full = rp + "." + p
+							}
+							record(full)
+						}
+					}
+				}
+			}
+		})
+	}
 	return out
 }
 
